@@ -505,11 +505,13 @@ class Differential:
                     impl[b] = out
         dl = []
         for c in cases:
-            dl.append(c.line(self.model_entry(c)))
+            dl.append(c.line(self.model_entry(c)) if self.model_entry else "")
             se = self.spec_entry(c) if self.spec_entry else None
             dl.append(c.line(se) if se else "")
         dout = driver_eval(dl)
         model = dout[0::2]; spec1 = dout[1::2]
+        if not self.model_entry:
+            model = [None] * len(cases)     # no step-by-step model: the oracle (proved checker) alone decides
         spec = {}
         for b in self.bins:
             if self.check_entry:
@@ -526,7 +528,7 @@ class Differential:
 
     def judge(self, case, impl_line, model_line, spec_line):
         """-> (corr_ok, oracle_failure or None, known id or None)"""
-        corr_ok = (impl_line == model_line)
+        corr_ok = (model_line is None) or (impl_line == model_line)
         of = self.oracle(case, impl_line, spec_line)
         kn = None
         if of is not None and corr_ok:
@@ -639,8 +641,8 @@ def generic_replay(diff, path):
         if not diff.applicable(case, b):
             continue
         of = diff.oracle(case, impl[b][0], spec[b][0])
-        print(f"[{b}] impl : {impl[b][0]}\n[{b}] spec : {spec[b][0]}\n[{b}] oracle: {'FAIL ' + str(of) if of else 'ok'}; correspondence: {'ok' if impl[b][0] == model[0] else 'DIFFERS'}")
-        bad = bad or of is not None or impl[b][0] != model[0]
+        print(f"[{b}] impl : {impl[b][0]}\n[{b}] spec : {spec[b][0]}\n[{b}] oracle: {'FAIL ' + str(of) if of else 'ok'}; correspondence: {'ok' if model[0] in (None, impl[b][0]) else 'DIFFERS'}")
+        bad = bad or of is not None or model[0] not in (None, impl[b][0])
     print("model:", model[0])
     print("REPRODUCED" if bad else "not reproduced")
     return 1 if bad else 0
